@@ -9,9 +9,9 @@ git diff -- sqlparse > /dev/shm/seed.$id.diff
 [ -s /dev/shm/seed.$id.diff ] || { echo "no change in worktree"; exit 3; }
 echo "== suite with change:"; timeout 900 /venv/bin/python -m pytest -q -p no:cacheprovider tests 2>&1 | tail -1
 echo "== demo with change:"; timeout 600 /venv/bin/python demo.py > /dev/shm/seed.$id.with 2>&1; echo "exit=$?"; tail -3 /dev/shm/seed.$id.with
-git stash -q
+git apply -R /dev/shm/seed.$id.diff
 echo "== demo without change:"; timeout 600 /venv/bin/python demo.py > /dev/shm/seed.$id.without 2>&1; echo "exit=$?"; tail -2 /dev/shm/seed.$id.without
-git stash pop -q
+git apply /dev/shm/seed.$id.diff
 mkdir -p /verif/seeded/$id
 cp /dev/shm/seed.$id.diff /verif/seeded/$id/patch.diff
 cp demo.py /verif/seeded/$id/demo.py
